@@ -18,6 +18,7 @@ fn main() {
     let code = match args.get(1).map(|s| s.as_str()) {
         Some("check") if args.len() >= 4 => check(&args[2], &args[3]),
         Some("replay") if args.len() >= 3 => replay(&args[2]),
+        Some("isolated") if args.len() >= 4 => isolated_child(&args[2], &args[3]),
         Some("dbgfam") => { props::c20::debug_family(); 0 }
         Some("list") => { for (id, _) in props::ALL { println!("{id}"); } 0 }
         _ => { eprintln!("usage: lc3mc check <ID> <quick|thorough> | replay <path> | list"); 2 }
@@ -75,8 +76,10 @@ fn check(id: &str, tier: &str) -> i32 {
         let _ = std::fs::create_dir_all(&dir);
         for (n, v) in unknown.iter().enumerate().take(20) {
             if !v.case.starts_with("folded:") {
-                let r1 = catch(|| (entry.replay)(&v.case));
-                let r2 = catch(|| (entry.replay)(&v.case));
+                // cases marked "iso:" may abort the process that evaluates them: they are replayed in child processes as well
+                let iso = v.case.starts_with("iso:");
+                let r1 = if iso { isolated(id, &v.case) } else { catch(|| (entry.replay)(&v.case)) };
+                let r2 = if iso { isolated(id, &v.case) } else { catch(|| (entry.replay)(&v.case)) };
                 let same = match (&r1, &r2) { (Ok(a), Ok(b)) => a == b, (Err(a), Err(b)) => a == b, _ => false };
                 // C31 is the reproducibility property itself: its cases build simulators from fixed configurations only (no clock, no
                 // entropy, no hash-order dependent output on the harness side), so a case whose verdict changes when it is executed
@@ -155,6 +158,17 @@ fn check(id: &str, tier: &str) -> i32 {
     0
 }
 
+/// Child side of `util::isolated`: evaluates one case of one property in this (sacrificial) process and prints the verdict on one line.
+/// A case that makes the subject abort the process (stack overflow, allocation failure) never gets to print it.
+fn isolated_child(id: &str, case: &str) -> i32 {
+    let Some(&(_, entry)) = props::ALL.iter().find(|(i, _)| *i == id) else { eprintln!("unknown property {id}"); return 2; };
+    match catch(|| (entry.replay)(case)) {
+        Ok(None) => println!("ISOLATED-RESULT none"),
+        Ok(Some(d)) => println!("ISOLATED-RESULT violation {}", d.replace('\n', " ")),
+        Err(m) => println!("ISOLATED-RESULT violation [panic:{}] {}", panic_site(&m), m.replace('\n', " ")),
+    }
+    0
+}
 fn truncate(s: &str, n: usize) -> String {
     if s.len() <= n { s.to_string() } else { let mut e = n; while !s.is_char_boundary(e) { e -= 1; } format!("{}…", &s[..e]) }
 }
@@ -164,8 +178,9 @@ fn replay(path: &str) -> i32 {
     let Some(j) = Json::parse(&txt) else { eprintln!("bad json in {path}"); return 2; };
     let (Some(id), Some(case)) = (j.get("property").and_then(|x| x.as_str()), j.get("case").and_then(|x| x.as_str())) else { eprintln!("missing fields"); return 2; };
     let Some(&(_, entry)) = props::ALL.iter().find(|(i, _)| *i == id) else { eprintln!("unknown property {id}"); return 2; };
-    let r1 = catch(|| (entry.replay)(case));
-    let r2 = catch(|| (entry.replay)(case));
+    let iso = case.starts_with("iso:");
+    let r1 = if iso { isolated(id, case) } else { catch(|| (entry.replay)(case)) };
+    let r2 = if iso { isolated(id, case) } else { catch(|| (entry.replay)(case)) };
     let same = match (&r1, &r2) { (Ok(a), Ok(b)) => a == b, (Err(a), Err(b)) => a == b, _ => false };
     if !same && id == "C31" {
         // see check(): for the reproducibility property a verdict that changes between two executions of the same case is the violation
